@@ -21,7 +21,7 @@ ASSUMPTIONS = ['between the last row\'s shift reaching fchans and the implemente
                'instead of tchans-1) either rejection or success is accepted',
                'row shifts within 1e-6 of a rounding tie are excluded and counted',
                'normalised output is only checked for non-constant content']
-REQUIRED_CLASSES = ['op=slice', 'op=dedrift', 'op=integrate', 'asc', 'desc', 'dedrift_neg', 'dedrift_pos',
+REQUIRED_CLASSES = ['derived_parent', 'op=slice', 'op=dedrift', 'op=integrate', 'asc', 'desc', 'dedrift_neg', 'dedrift_pos',
                     'dedrift_rejected', 'dedrift_meta', 'integrate_frame', 'integrate_norm', 'tone']
 
 
@@ -30,6 +30,12 @@ def strategy_(draw, tier):
     g = draw(gen.geometry(max_fchans=200 if tier == 'thorough' else 64, max_tchans=16))
     op = draw(st.sampled_from(['slice', 'dedrift', 'dedrift', 'integrate', 'tone']))
     c = dict(g=g, op=op, noise_seed=draw(st.integers(0, 1000)), name=draw(st.sampled_from(['Voyager1', 'TMC1', 'SRC_42'])))
+    # the operation may be applied to a frame that is itself derived / has history (chains of derivations)
+    c['pre'] = draw(st.lists(st.one_of(
+        st.fixed_dictionaries({'op': st.just('slice'), 'a': gen.finite(0, 0.4), 'b': gen.finite(0.6, 1.0)}),
+        st.fixed_dictionaries({'op': st.just('dedrift'), 'frac': gen.finite(-0.3, 0.3)}),
+        st.fixed_dictionaries({'op': st.sampled_from(['copy', 'get_waterfall', 'float32'])})), min_size=0, max_size=2)) \
+        if draw(st.booleans()) else []
     N, T = g['fchans'], g['tchans']
     if op == 'slice':
         l = draw(st.integers(0, N - 1))
@@ -88,12 +94,39 @@ def run_case(case, ctx):
     op = case['op']
     obs.cls('op=' + ('dedrift' if op == 'tone' else op), 'asc' if g['ascending'] else 'desc', 'route=' + g['route'])
     fr, data = parent(stg, case)
+    for pre in case.get('pre', []):
+        if pre['op'] == 'slice' and fr.fchans >= 4:
+            l = int(pre['a'] * fr.fchans)
+            r = max(l + 2, int(pre['b'] * fr.fchans))
+            ok, fr = core.call(obs, 'pre:get_slice', stg.get_slice, fr, l, min(r, fr.fchans))
+        elif pre['op'] == 'dedrift' and fr.fchans >= 8 and fr.tchans >= 2:
+            ok, fr = core.call(obs, 'pre:dedrift', stg.dedrift, fr, pre['frac'] * fr.fchans * fr.df / (fr.tchans * fr.dt))
+        elif pre['op'] == 'copy':
+            ok, fr = core.call(obs, 'pre:copy', fr.copy)
+        elif pre['op'] == 'get_waterfall':
+            ok, _ = core.call(obs, 'pre:get_waterfall', fr.get_waterfall)
+        elif pre['op'] == 'float32':
+            fr.data = fr.data.astype(np.float32)
+            ok = True
+        else:
+            continue
+        if not ok:
+            return obs
+        obs.cls('derived_parent')
+    data = np.array(fr.data, dtype=float, copy=True)
+    # single-precision data is reduced in single precision by numpy
+    rtol = 1e-12 if fr.data.dtype == np.float64 else 64 * float(np.finfo(np.float32).eps) * max(fr.fchans, fr.tchans)
+    g = dict(g, fchans=fr.fchans, tchans=fr.tchans)
+    T, N = g['tchans'], g['fchans']
     before = data.copy()
     fs = np.asarray(fr.fs).copy()
     ftol = 64 * gen.ulp(fs[-1])
 
     if op == 'slice':
         l, r = case['l'], case['r']
+        if N != case['g']['fchans']:       # derived parent: rescale the drawn bounds
+            l = l * N // case['g']['fchans']
+            r = max(l + 1, min(N, r * N // case['g']['fchans']))
         ok, ch = core.call(obs, 'get_slice', stg.get_slice, fr, l, r)
         if not ok:
             return obs
@@ -280,18 +313,18 @@ def run_case(case, ctx):
         obs.fail('integrate:shape', f'{out.shape} vs {raw.shape}')
         return obs
     if not normalize:
-        if np.max(np.abs(out - raw)) > 1e-12 * np.max(np.abs(raw)):
+        if np.max(np.abs(out - raw)) > rtol * np.max(np.abs(raw)):
             obs.fail(f'integrate:value:{"sum" if mode[0] == "s" else "mean"}', f'{np.max(np.abs(out - raw))}')
     elif len(raw) >= 3 and np.ptp(raw) > 0:
         from astropy.stats import sigma_clip
         # positive affine map of the raw integration
         A = np.vstack([raw, np.ones_like(raw)]).T
         (a, b), *_ = np.linalg.lstsq(A, out, rcond=None)
-        if not (a > 0) or np.max(np.abs(A @ np.array([a, b]) - out)) > 1e-8 * max(1.0, np.max(np.abs(out))):
+        if not (a > 0) or np.max(np.abs(A @ np.array([a, b]) - out)) > max(1e-8, 1e3 * rtol) * max(1.0, np.max(np.abs(out))):
             obs.fail('integrate:normalised_not_affine', f'a={a}')
         else:
             c = sigma_clip(out)
-            if abs(np.mean(c)) > 1e-8 or abs(np.std(c) - 1) > 1e-8:
+            if abs(np.mean(c)) > max(1e-8, 1e3 * rtol) or abs(np.std(c) - 1) > max(1e-8, 1e3 * rtol):
                 obs.fail('integrate:normalised_stats', f'{np.mean(c)} {np.std(c)}')
     if not np.array_equal(fr.data, before):
         obs.fail('integrate:parent_modified', '')
